@@ -57,7 +57,10 @@ def check_distribution(spec, seed: int, extra_p: list[float] = ()) -> tuple[list
     fam = S.family_of(spec)
     lib = S.lib_of(spec)
     law = S.law_of(spec)
-    d = S.build(spec)
+    try:
+        d = S.build(spec)
+    except Exception as e:  # noqa: BLE001
+        return [(f"construct-raises:{lib}:{fam}", f"{spec['cls']}({dict((k, v) for k, v in spec['params'])}) raised {type(e).__name__} for admissible parameters: {e!s}"[:400])], {}
     derived = getattr(law, "derived", False)
     numeric = getattr(law, "numeric_moments", False)
     is_dirac = fam == "Dirac"
@@ -68,6 +71,14 @@ def check_distribution(spec, seed: int, extra_p: list[float] = ()) -> tuple[list
     def fail(kind: str, msg: str) -> None:
         bad.append((f"{kind}:{tag}", f"{spec['cls']}({dict((k, v) for k, v in spec['params'])}): {msg}"))
 
+    try:
+        return _check_built(spec, seed, extra_p, d, law, fam, lib, tag, scale, derived, numeric, is_dirac, bad, obs, fail)
+    except Exception as e:  # noqa: BLE001
+        fail("evaluation-raises", f"{type(e).__name__}: {e!s}"[:300])
+        return bad, obs
+
+
+def _check_built(spec, seed, extra_p, d, law, fam, lib, tag, scale, derived, numeric, is_dirac, bad, obs, fail):
     # support / range
     sup = np.asarray(d.support, dtype=float)
     rng_ = np.asarray(d.range, dtype=float)
@@ -176,7 +187,10 @@ def check_agreement(spec_sp, spec_ot) -> list[tuple[str, str]]:
     """SciPy- and OpenTURNS-based versions of the same documented law agree (B30)."""
     bad = []
     fam = S.family_of(spec_sp)
-    a, b = S.build(spec_sp), S.build(spec_ot)
+    try:
+        a, b = S.build(spec_sp), S.build(spec_ot)
+    except Exception as e:  # noqa: BLE001
+        return [(f"construct-raises:agree:{fam}", f"{spec_sp['cls']}/{spec_ot['cls']} {dict((k, v) for k, v in spec_sp['params'])} raised {type(e).__name__}: {e!s}"[:400])]
     law = S.law_of(spec_sp)
     scale = max(1.0, law.std)
 
